@@ -270,9 +270,13 @@ class TreeSim(WorldBase):
             errs = ob.wellformed(sl.root, sl.depth, where=f"slot{s}")
             if errs:
                 self.V("C01", "C01.wellformed", culprit, "; ".join(errs[:3]))
+                if culprit == "populate":
+                    self.V("C05", "C05.z-wellformed-throughout", culprit, "; ".join(errs[:3]))
             errs = ob.mirror(sl.t, where=f"slot{s}")
             if errs:
                 self.V("C02", "C02.rank-mirror", culprit, "; ".join(errs[:3]))
+                if culprit == "populate":
+                    self.V("C05", "C05.z-member-of-tensor-throughout", culprit, "; ".join(errs[:3]))
         # --- C10: distinct tensors never share mutable objects
         if self.prop == "C10" and (culprit.startswith("vr_") or kind == "op" and culprit in MUTATORS
                                    or culprit in ("new",)):
@@ -482,6 +486,12 @@ class TreeSim(WorldBase):
         if act == "set":
             box <<= v
             new = v
+        elif act == "setbox":
+            box <<= Payload(v)
+            new = v
+        elif act == "addbox":
+            box += Payload(v)
+            new = cur + v
         elif act == "add":
             box += v
             new = cur + v
@@ -1349,10 +1359,14 @@ class TreeSim(WorldBase):
 
     def _leaf_action(self, g):
         r = g.random()
-        if r < 0.35:
+        if r < 0.25:
             return "set", self.nextval()
-        if r < 0.6:
+        if r < 0.35:
+            return "setbox", self.nextval()
+        if r < 0.52:
             return "add", g.choice([1, 2, 3, self.nextval()])
+        if r < 0.6:
+            return "addbox", g.choice([1, 2, 3])
         if r < 0.7:
             return "mul", g.choice([0, 2, 3])
         if r < 0.8:
